@@ -396,3 +396,319 @@ func runMsaveScenario(b *vlib.Batch, sc msaveScen, dir string) {
 		}
 	}
 }
+
+// ---------------------------------------------------------------------------------
+// setter storm: 2-4 setters change options at the same time (no file: the changes and
+// their signals overlap as much as possible) while reader goroutines keep refreshing
+// getters of every kind (shared Concurrent, private plain, GetActiveConfigValues).
+// Per round: regular-register rule for every read; at quiescence every getter that
+// lived through the storm shows the final value; then every option is changed once
+// more sequentially and the same getters must show that change too.
+
+type stormScen struct {
+	ID      string `json:"id"`
+	Setters int    `json:"setters"`
+	Readers int    `json:"readers"`
+	Rounds  int    `json:"rounds"`
+	Burst   int    `json:"burst"`
+	Layer   string `json:"layer"` // user default
+	Sync    bool   `json:"sync"`  // pair the setters up at the presignal hook
+	SharedP int    `json:"shared_pct"`
+	Seed    uint64 `json:"seed"`
+}
+
+func genStormScen(r *vlib.Rand, id string, race bool) stormScen {
+	sc := stormScen{ID: id, Seed: r.Uint64()}
+	sc.Setters = r.Range(2, 4)
+	sc.Readers = r.Range(3, 6)
+	sc.Rounds = r.Range(40, 70)
+	sc.Burst = r.Range(8, 24)
+	if race {
+		sc.Rounds = r.Range(15, 30)
+		sc.Burst = r.Range(5, 12)
+	}
+	sc.Layer = vlib.Pick(r, "user", "user", "default")
+	sc.Sync = r.Chance(60, 100)
+	sc.SharedP = vlib.Pick(r, 0, 20, 50)
+	return sc
+}
+
+var stormKinds = []string{"Concurrent-shared", "plain-private", "GetActiveConfigValues"}
+
+func runStormScenario(b *vlib.Batch, sc stormScen) {
+	vhook.Clear()
+	config.VerifSetConfigFile("")
+	config.ReplaceConfig(map[string]interface{}{})
+	config.ReplaceDefaultConfig(map[string]interface{}{})
+	nOpt := 1 + sc.Setters
+	keys := make([]string, nOpt)
+	isInt := make([]bool, nOpt)
+	typ := make([]int, nOpt)
+	for i := range keys {
+		keys[i] = fmt.Sprintf("%s/o%d", sc.ID, i)
+		isInt[i] = i%2 == 0
+		typ[i] = tString
+		o := &config.Option{Name: keys[i], Key: keys[i], Description: "verif setter storm", OptType: config.OptTypeString, DefaultValue: "v000000"}
+		if isInt[i] {
+			o.OptType, o.DefaultValue, typ[i] = config.OptTypeInt, 0, tInt
+		}
+		if err := config.Register(o); err != nil {
+			b.Note("harness: register %s: %v", keys[i], err)
+			return
+		}
+	}
+	user := sc.Layer == "user"
+	set := func(opt int, v int64) error {
+		var gv interface{} = fmt.Sprintf("v%06d", v)
+		if isInt[opt] {
+			gv = v
+		}
+		if user {
+			return config.SetConfigOption(keys[opt], gv)
+		}
+		return config.SetDefaultConfigOption(keys[opt], gv)
+	}
+	activeIdx := func(act map[string]interface{}, opt int) int64 {
+		switch t := act[keys[opt]].(type) {
+		case nil:
+			return 0
+		case int64:
+			return t
+		case string:
+			return int64(parseIdx(t))
+		}
+		return -1
+	}
+	b.Eval(1)
+	b.DistinctS(fmt.Sprintf("storm %+v", sc))
+	b.Seen("child_scenarios", "setter-storm/"+sc.Layer)
+	b.Max("max_concurrent_setters", int64(sc.Setters))
+	detail := func(extra map[string]any) map[string]any {
+		d := map[string]any{"mode": "storm", "storm": sc}
+		for k, v := range extra {
+			d[k] = v
+		}
+		return d
+	}
+
+	var seq atomic.Uint64
+	var arrived atomic.Int64
+	if sc.Sync {
+		vhook.Set("config.set.presignal", func(_, _ string) {
+			n := arrived.Add(1)
+			if n%2 == 1 { // wait briefly for a partner so that two signals overlap
+				for spin := 0; spin < 300 && arrived.Load() == n; spin++ {
+					runtime.Gosched()
+				}
+			}
+		})
+	}
+	defer vhook.Clear()
+
+	sharedG := make([]*concGetter, nOpt)
+	private := make([][]*concGetter, sc.Readers)
+	for o := 0; o < nOpt; o++ {
+		sharedG[o] = newConcGetter(keys[o], typ[o], true)
+	}
+	for ri := range private {
+		private[ri] = make([]*concGetter, nOpt)
+		for o := 0; o < nOpt; o++ {
+			private[ri][o] = newConcGetter(keys[o], typ[o], false)
+		}
+	}
+	prev := make([]int64, nOpt) // value in effect at the start of the round
+	counter := int64(0)
+	deadline := time.Now().Add(90 * time.Second)
+	for round := 0; round < sc.Rounds; round++ {
+		if time.Now().After(deadline) {
+			b.Inconclusive("setter-storm scenario %s hit its 90 s watchdog", sc.ID)
+			return
+		}
+		rr := vlib.NewRand(sc.Seed, "storm-round", uint64(round))
+		plan := make([][]mset, sc.Setters)
+		for j := range plan {
+			for x := 0; x < sc.Burst; x++ {
+				counter++
+				opt := 1 + j
+				if rr.Chance(sc.SharedP, 100) {
+					opt = 0
+				}
+				plan[j] = append(plan[j], mset{opt: opt, val: counter})
+			}
+		}
+		roundStart := seq.Add(1)
+		var wg, rwg sync.WaitGroup
+		start := make(chan struct{})
+		var stop atomic.Bool
+		errs := make([]error, sc.Setters)
+		for j := range plan {
+			wg.Add(1)
+			go func(j int) {
+				defer wg.Done()
+				<-start
+				for x := range plan[j] {
+					s := &plan[j][x]
+					s.call = seq.Add(1)
+					err := set(s.opt, s.val)
+					s.ret = seq.Add(1)
+					if err != nil {
+						errs[j] = err
+						return
+					}
+				}
+			}(j)
+		}
+		roundReads := make([][]mread, sc.Readers)
+		for ri := 0; ri < sc.Readers; ri++ {
+			rwg.Add(1)
+			go func(ri int) {
+				defer rwg.Done()
+				rnd := vlib.NewRand(sc.Seed, "storm-reader", uint64(round*16+ri))
+				<-start
+				for n := 0; !(n >= 20 && stop.Load()) && n < 200000; n++ {
+					rec := len(roundReads[ri]) < 400
+					if ri == 0 && user {
+						c := seq.Add(1)
+						act := config.GetActiveConfigValues()
+						t := seq.Add(1)
+						if rec {
+							for o := 0; o < nOpt; o++ {
+								roundReads[ri] = append(roundReads[ri], mread{opt: o, val: activeIdx(act, o), call: c, ret: t, kind: 2})
+							}
+						}
+						continue
+					}
+					opt := rnd.Intn(nOpt)
+					g, kind := sharedG[opt], uint8(0)
+					if rnd.Bool() {
+						g, kind = private[ri][opt], 1
+					}
+					if !rec {
+						g.read() // keep refreshing without recording
+						continue
+					}
+					c := seq.Add(1)
+					v := int64(g.read())
+					t := seq.Add(1)
+					roundReads[ri] = append(roundReads[ri], mread{opt: opt, val: v, call: c, ret: t, kind: kind})
+				}
+			}(ri)
+		}
+		close(start)
+		wg.Wait()
+		stop.Store(true)
+		rwg.Wait()
+		for j, err := range errs {
+			if err != nil {
+				b.Violation("C04:storm:set-error", fmt.Sprintf("setter %d: a valid value was rejected: %v", j, err), detail(map[string]any{"round": round}))
+				return
+			}
+		}
+		b.Count("storm_rounds", 1)
+		sets := make([][]mset, nOpt)
+		for j := range plan {
+			for _, s := range plan[j] {
+				sets[s.opt] = append(sets[s.opt], s)
+				b.Count("storm_sets", 1)
+			}
+		}
+		// regular-register rule for the reads of this round (the value at round start is a
+		// write that returned before the round began)
+		for _, rs := range roundReads {
+			b.Count("storm_reads_checked", int64(len(rs)))
+			for _, rd := range rs {
+				ss := sets[rd.opt]
+				var wret uint64
+				found := rd.val == prev[rd.opt]
+				if found {
+					wret = roundStart
+				}
+				for i := range ss {
+					if ss[i].val == rd.val {
+						found = true
+						wret = ss[i].ret
+						if ss[i].call > rd.ret {
+							found = false
+						}
+					}
+				}
+				if !found {
+					b.Violation("C04:storm:regular-register:foreign-or-future-value:"+stormKinds[rd.kind],
+						fmt.Sprintf("round %d: %s read [%d,%d] of %s returned value index %d, which is neither the value at round start (%d) nor written by a set that had begun", round, stormKinds[rd.kind], rd.call, rd.ret, keys[rd.opt], rd.val, prev[rd.opt]),
+						detail(map[string]any{"round": round}))
+					return
+				}
+				for i := range ss {
+					if s := &ss[i]; s.val != rd.val && s.call > wret && s.ret < rd.call {
+						b.Violation("C04:storm:regular-register:stale:"+stormKinds[rd.kind],
+							fmt.Sprintf("round %d: %s read [%d,%d] of %s returned %d (its set returned at %d), but the set of %d began at %d and returned at %d, before the read was called",
+								round, stormKinds[rd.kind], rd.call, rd.ret, keys[rd.opt], rd.val, wret, s.val, s.call, s.ret), detail(map[string]any{"round": round}))
+						return
+					}
+				}
+			}
+		}
+		// quiescence: the value in effect is one nothing follows; every getter shows it
+		mem := make([]int64, nOpt)
+		for o := 0; o < nOpt; o++ {
+			mem[o] = int64(newConcGetter(keys[o], typ[o], false).read())
+			ok := len(sets[o]) == 0 && mem[o] == prev[o]
+			var maxCall uint64
+			for _, s := range sets[o] {
+				if s.call > maxCall {
+					maxCall = s.call
+				}
+			}
+			for _, s := range sets[o] {
+				if s.ret > maxCall && s.val == mem[o] {
+					ok = true
+				}
+			}
+			if !ok {
+				b.Violation("C04:storm:value-not-last-set", fmt.Sprintf("round %d: after all setters returned a new getter of %s yields %d, which is not the value of a set nothing follows", round, keys[o], mem[o]),
+					detail(map[string]any{"round": round}))
+				return
+			}
+		}
+		checkAll := func(want []int64, phase string) bool {
+			for o := 0; o < nOpt; o++ {
+				if v := int64(sharedG[o].read()); v != want[o] {
+					b.Violation("C04:storm:"+phase+":Concurrent-shared", fmt.Sprintf("round %d: the shared Concurrent getter of %s that lived through the concurrent setters returns %d, current value %d", round, keys[o], v, want[o]), detail(map[string]any{"round": round}))
+					return false
+				}
+				for ri := range private {
+					if v := int64(private[ri][o].read()); v != want[o] {
+						b.Violation("C04:storm:"+phase+":plain-private", fmt.Sprintf("round %d: the plain getter of %s owned by reader %d returns %d, current value %d", round, keys[o], ri, v, want[o]), detail(map[string]any{"round": round}))
+						return false
+					}
+				}
+			}
+			if user {
+				act := config.GetActiveConfigValues()
+				for o := 0; o < nOpt; o++ {
+					if v := activeIdx(act, o); v != want[o] {
+						b.Violation("C04:storm:"+phase+":GetActiveConfigValues", fmt.Sprintf("round %d: GetActiveConfigValues()[%s] = %v, current user value index %d", round, keys[o], act[keys[o]], want[o]), detail(map[string]any{"round": round}))
+						return false
+					}
+				}
+			}
+			return true
+		}
+		if !checkAll(mem, "stale-after-quiescence") {
+			return
+		}
+		// one more change of every option, sequentially
+		for o := 0; o < nOpt; o++ {
+			counter++
+			if err := set(o, counter); err != nil {
+				b.Violation("C04:storm:set-error", "sequential set rejected: "+err.Error(), detail(nil))
+				return
+			}
+			mem[o] = counter
+		}
+		if !checkAll(mem, "stale-after-later-change") {
+			return
+		}
+		copy(prev, mem)
+	}
+}
